@@ -248,9 +248,11 @@ def rnd_alpha_colour(rnd):
 
 def png_colours(rnd):
     """(tag, kwargs) for the 2-colour PNG image types"""
-    r = rnd.randrange(14)
+    r = rnd.randrange(15)
     if r == 0:
         return 'default', {}
+    if r == 14:
+        return 'all-transparent', dict(dark=None, light=None)
     if r == 1:
         return 'grey-inverted', dict(dark=rnd.choice(['#fff', 'white', 'WHITE', (255, 255, 255), '#FFFFFF']),
                                      light=rnd.choice(['#000', 'black', (0, 0, 0), '#000000']))
@@ -527,6 +529,9 @@ def gen_c11(rnd, syms, tier):
                 if rnd.random() < 0.5:
                     kw[rnd.choice(['data_light', 'quiet_zone', 'separator'])] = None
                 add(v, 'png', kw, 'colourful:transparent-standin')
+            # a colour map that is entirely transparent
+            if rnd.random() < 0.1:
+                add(v, 'png', rnd.choice([{k: None for k in TYPE_OPTIONS}, dict(dark=None, light=None, quiet_zone=None)]), 'colourful:all-transparent')
     # call histories: identical multi-colour arguments for symbols of different size classes (Micro / version < 7 / version >= 7),
     # in this order and reversed — a colour map must not survive from one symbol to the next
     for fmt in ('png', 'svg', 'ppm'):
